@@ -18,6 +18,18 @@ def el(name, attrs=None, children=None):
     return [name, [[k, v] for k, v in (attrs or [])], list(children or [])]
 
 
+BIG_SIZES = [8193, 20000, 65535, 65536, 65537, 70000, 131073, 200000, 300000, 524289, 1048577, 1200000, 2097153, 4200000, 8388609]
+
+
+def big_bytes(rng, limit=300000):
+    """picture data of a size that real pictures have (the usual generated ones are a few bytes): around and beyond the
+    buffer sizes of the standard library (8 KiB, 64 KiB, 1 MiB, ...), at most `limit` bytes; a short random block repeated"""
+    sizes = [n for n in BIG_SIZES if n <= limit] or [limit]
+    n = rng.choice(sizes) + rng.choice([0, 0, 1, rng.randrange(1000)])
+    block = bytes(rng.randrange(256) for _ in range(rng.choice([1, 61, 251])))
+    return (block * (n // len(block) + 1))[:n]
+
+
 class Profile(dict):
     """feature weights; missing keys default to the general profile"""
     DEFAULT = dict(
@@ -51,6 +63,12 @@ class DocGen:
                         ("Quote", "Intense Quote"), ("Tip", "tip box"), ("FootnoteText", "footnote text"), ("NoName", None)]
         self.rstyles = [("Strong", "Strong"), ("Code", "code span"), ("Hyperlink", "Hyperlink"), ("FootnoteReference", "footnote reference"), ("Em2", None)]
         self.tstyles = [("TableGrid", "Table Grid"), ("Fancy", "fancy table")]
+        # optional profile keys (no draw without them): p_cross_style > 0 = a few style IDs are shared by w:pStyle / w:rStyle /
+        # w:tblStyle references and defined for none / one / some of the kinds; big_media > 0 = that share of the embedded
+        # pictures is large (beyond 8 KiB / 64 KiB ... up to big_media_max bytes)
+        self.cross_ids = []     # style IDs used by references of more than one kind (paragraph / run / table) in this document
+        if self.pf.get("p_cross_style", 0) > 0:
+            self.cross_styles()
         self.nums = []          # numbering definitions used
         self.used_features = set()
         self.in_note = False
@@ -86,6 +104,25 @@ class DocGen:
     def word(self, n=5):
         return "".join(self.rng.choice(LETTERS) for _ in range(self.rng.randint(1, n)))
 
+    def cross_styles(self):
+        """one to three style IDs that this document refers to through MORE THAN ONE kind of reference (w:pStyle, w:rStyle,
+        w:tblStyle); each is defined for a random subset of the three kinds (none, one, some, all), with a different name
+        (or no name) per kind.  Resolution of a style reference depends on the kind of the reference, not on the ID alone;
+        the same IDs recur from document to document with other definitions."""
+        rng = self.rng
+        ids = rng.sample(["Mixed1", "Mixed2", "Mixed3", "Heading1", "Strong", "TableGrid", "Normal", "mixed 4", "Undefxx"], rng.randint(1, 3))
+        tables = (("paragraph", self.pstyles), ("run", self.rstyles), ("table", self.tstyles))
+        for sid in ids:
+            how = rng.choice(["none", "one", "one", "some", "some", "all"])
+            kinds = {"none": [], "one": rng.sample(range(3), 1), "some": rng.sample(range(3), 2), "all": [0, 1, 2]}[how]
+            for k, (kind, table) in enumerate(tables):
+                have = [i for i, (s, _n) in enumerate(table) if s == sid]
+                if k in kinds and not have:
+                    table.append((sid, rng.choice(["%s %s" % (sid.lower(), kind), "%s %s" % (sid.lower(), kind), "Shared Name", None])))
+                elif k not in kinds and have and rng.random() < 0.5:
+                    del table[have[0]]         # a well-known ID that this document does not define for its usual kind
+            self.cross_ids.append(sid)
+
     # ---- inline content ------------------------------------------------
     def rpr(self):
         rng = self.rng
@@ -97,6 +134,9 @@ class DocGen:
             else:
                 ch.append(el("w:rStyle", [("w:val", rng.choice(self.rstyles)[0])]))
                 self.hit("rstyle")
+        if self.cross_ids and ch and rng.random() < self.pf.get("p_cross_style", 0):
+            ch[-1] = el("w:rStyle", [("w:val", rng.choice(self.cross_ids))])
+            self.hit("cross-rstyle")
 
         def toggle(tag):
             sp = rng.choice(["bare", "true", "1", "false", "0", "bare", "true"])
@@ -194,6 +234,13 @@ class DocGen:
 
     def note_ref(self, depth):
         ty = self.rng.choice(["footnote", "endnote"])
+        if self.pf.get("p_note_repeat", 0.0) > 0 and self.notes[ty] and self.rng.random() < self.pf.get("p_note_repeat", 0.0):
+            # the SAME note cited again (a source quoted in a table cell and again in the body): one more reference,
+            # one more label, one more item of the notes list; later references keep counting from there
+            nid = self.rng.choice(self.notes[ty])[0]
+            self.hit("note-repeat")
+            self.hit("note-" + ty)
+            return el("w:%sReference" % ty, [("w:id", nid)])
         nid = str(len(self.notes[ty]) + 2)
         saved = self.in_note
         self.in_note = True
@@ -205,6 +252,12 @@ class DocGen:
         return el("w:%sReference" % ty, [("w:id", nid)])
 
     def comment_ref(self, depth):
+        if self.pf.get("p_comment_repeat", 0.0) > 0 and self.rng.random() < self.pf.get("p_comment_repeat", 0.0):
+            done = [i for i, c in enumerate(self.comments) if c is not None]
+            if done:
+                # a second reference to a comment that is already complete (never to the one whose body is being written)
+                self.hit("comment-repeat")
+                return el("w:commentReference", [("w:id", str(self.rng.choice(done)))])
         cid = str(len(self.comments))
         saved = (self.in_note, self.in_comment)
         self.in_note = self.in_comment = True
@@ -228,6 +281,9 @@ class DocGen:
         ext = rng.choice(["png", "PNG", "jpg", "jpeg", "gif", "bmp", "tif", "emf", "wmf", "svg", "bin", "jpe"])
         name = "media/image%d.%s" % (len(self.media) + 1, ext)
         data = bytes(rng.randrange(256) for _ in range(rng.choice([0, 1, 2, 3, 4, 5, 17, 64])))
+        if self.pf.get("big_media", 0) > 0 and rng.random() < self.pf["big_media"]:
+            data = big_bytes(rng, self.pf.get("big_media_max", 300000))
+            self.hit("image-big")
         how = rng.choice(["override", "default", "none", "default-exact", "both"])
         self.media.append(("word/" + name, data, how, ext))
         rid = self.fresh("rIdImg")
@@ -300,6 +356,9 @@ class DocGen:
         begin_children = []
         if kind == "ext":
             instr = ' HYPERLINK "%s" ' % rng.choice(["http://example.com/", "http://e.x/?a=1&b=<2>", "mailto:a@b", ""])
+            if self.pf.get("p_odd_target", 0.0) > 0 and rng.random() < self.pf.get("p_odd_target", 0.0):
+                instr = rng.choice([' HYPERLINK "%s" ', 'HYPERLINK\t"%s"', ' HYPERLINK  "%s"']) % self.link_target().replace('"', "")
+                self.hit("field-target-odd")
         elif kind == "ext-sw":
             instr = ' HYPERLINK "http://example.com/%s" %s' % (self.word(3), rng.choice(['\\o "tip"', '\\t "_blank"', '\\o "a" \\t "_blank"', '\\l "frag"']))
         elif kind == "int":
@@ -336,6 +395,25 @@ class DocGen:
         self.hit("field-" + kind)
         return runs
 
+    def link_target(self):
+        """a relationship target / field URL as authoring tools really write them, composed of parts none of which a
+        reader may touch: the converter copies the string (and replaces only what follows the first '#').  A URL
+        library would re-serialise most of these differently (scheme case, drive letters, empty query or fragment,
+        runs of slashes, surrounding blanks, brackets)."""
+        rng = self.rng
+        lead = rng.choice(["", "", "", "", " ", "  ", "\t", "\n", "\r\n"])
+        head = rng.choice(["http://", "HTTP://", "Https://", "hTTp://", "http:/", "http:", "FILE:///", "file:///", "file:////server/share/", "file://///srv/", "file:/",
+                           "C:\\", "c:/", "D:\\Docs\\", "\\\\server\\share\\", "//host/", "//", "///", "MAILTO:", "mailto:", "urn:ISBN:", "x-App+1.0://", "1http://", "://",
+                           "", "", "./", "../", "/", "?", "data:,"])
+        auth = ""
+        if head.endswith("//"):
+            auth = rng.choice(["example.com", "Example.COM", "EXAMPLE.com:80", "User:Pw@Host", "[::1]", "[x", "h", "", "é.example", "a b"])
+        path = rng.choice(["", "", "/", "/a/b", "/A%20b%2f", "/a b", "/a/../b/./c", "//x", "/p;x=1", "Reports\\Q3 <final>.docx", "/é/中", "/a&b", "/" + self.word(4), self.text(2), "/x.docx"])
+        query = rng.choice(["", "", "", "?", "?a=1", "?a=1&b=<2>", "??", "?q=\"&'", "?A=%3f"])
+        frag = rng.choice(["", "", "", "#", "#old", "#_Toc1", "#a#b", "#?x", "# s ", "#é<\">"])
+        trail = rng.choice(["", "", "", "", " ", "\t"])
+        return lead + head + auth + path + query + frag + trail
+
     def hyperlink(self, depth):
         rng = self.rng
         attrs = []
@@ -343,9 +421,17 @@ class DocGen:
         if kind in ("rid", "rid-anchor"):
             rid = self.fresh("rIdLink")
             self.rels.append([rid, REL + "hyperlink", rng.choice(["http://example.com/", "http://e.x/p#old", "http://e.x/?q=<\"&>", "#frag", "data:text/plain;base64,\"><b>&"])])
+            if self.pf.get("p_odd_target", 0.0) > 0 and rng.random() < self.pf.get("p_odd_target", 0.0):
+                self.rels[-1][2] = self.link_target()
+                self.hit("link-target-odd" + ("-anchor" if kind == "rid-anchor" else ""))
+                if "#" in self.rels[-1][2] and kind == "rid-anchor":
+                    self.hit("link-target-odd-anchor-fragment")
             attrs.append(("r:id", rid))
         if kind in ("anchor", "rid-anchor"):
             attrs.append(("w:anchor", rng.choice(["sec1", "a b", "x\"y", "_Toc<1>"])))
+            if self.pf.get("p_odd_target", 0.0) > 0 and rng.random() < 0.3:
+                attrs[-1] = ("w:anchor", rng.choice(["", "#", "a#b", "Top?", " s ", "é&", "%41", "_Toc1", self.text(2)]))
+                self.hit("link-anchor-odd")
         if rng.random() < 0.2:
             attrs.append(("w:tgtFrame", rng.choice(["_blank", "", "frame"])))
         if rng.random() < 0.25:
@@ -477,6 +563,9 @@ class DocGen:
             else:
                 ch.append(el("w:pStyle", [("w:val", rng.choice(self.pstyles)[0])]))
                 self.hit("pstyle")
+        if self.cross_ids and ch and rng.random() < self.pf.get("p_cross_style", 0):
+            ch[-1] = el("w:pStyle", [("w:val", rng.choice(self.cross_ids))])
+            self.hit("cross-pstyle")
         if self.p("p_numbering"):
             ch.append(self.numpr())
         if allow_deleted and self.p("p_deleted_mark"):
@@ -606,6 +695,9 @@ class DocGen:
                 self.hit("dangling-tstyle")
             else:
                 tblpr.append(el("w:tblStyle", [("w:val", rng.choice(self.tstyles)[0])]))
+        if self.cross_ids and (tblpr or rng.random() < 0.3) and rng.random() < self.pf.get("p_cross_style", 0):
+            tblpr[:] = [el("w:tblStyle", [("w:val", rng.choice(self.cross_ids))])]
+            self.hit("cross-tstyle")
         ch = []
         if tblpr or rng.random() < 0.5:
             ch.append(el("w:tblPr", [], tblpr))
